@@ -224,3 +224,112 @@ Section WithDecoders.
     eapply blocks_ext; [exact H|]. rewrite app_length. lia.
   Qed.
 End WithDecoders.
+
+(* ---------------------------------------------------------------- skippable magic: mask test == range test *)
+Lemma land_mask16 : forall m, 0 <= m < 4294967296 -> Z.land m 4294967280 = 16 * (m / 16).
+Proof.
+  intros m Hm. apply Z.bits_inj'. intros n Hn.
+  rewrite Z.land_spec.
+  replace (16 * (m / 16)) with (Z.shiftl (Z.shiftr m 4) 4)
+    by (rewrite Z.shiftl_mul_pow2, Z.shiftr_div_pow2 by lia; change (2 ^ 4) with 16; ring).
+  change 4294967280 with (Z.shiftl (Z.ones 28) 4).
+  destruct (Z.ltb_spec n 4) as [L4|G4].
+  - rewrite !Z.shiftl_spec_low by lia. apply andb_false_r.
+  - rewrite !Z.shiftl_spec by lia. rewrite Z.shiftr_spec by lia. replace (n - 4 + 4) with n by lia.
+    destruct (Z.ltb_spec n 32) as [L32|G32].
+    + rewrite Z.ones_spec_low by lia. apply andb_true_r.
+    + rewrite Z.ones_spec_high by lia. rewrite andb_false_r.
+      destruct (Z.eq_dec m 0) as [->|NZ]; [symmetry; apply Z.bits_0|].
+      symmetry. apply Z.bits_above_log2; [lia|].
+      assert (Z.log2 m < 32) by (apply Z.log2_lt_pow2; lia). lia.
+Qed.
+
+Lemma skippable_mask_range : forall m, 0 <= m < 4294967296 ->
+  (Z.land m LZ4IO_SKIPPABLEMASK =? LZ4IO_SKIPPABLE0) = ((MAGIC_SKIP_LO <=? m) && (m <=? MAGIC_SKIP_HI)).
+Proof.
+  intros m Hm. unfold LZ4IO_SKIPPABLEMASK, LZ4IO_SKIPPABLE0, MAGIC_SKIP_LO, MAGIC_SKIP_HI.
+  rewrite land_mask16 by exact Hm.
+  assert (D := Z.div_mod m 16 ltac:(lia)). assert (B := Z.mod_pos_bound m 16 ltac:(lia)).
+  set (q := m / 16) in *. set (r := m mod 16) in *. clearbody q r.
+  destruct (16 * q =? 407710288) eqn:E1; destruct (407710288 <=? m) eqn:E2; destruct (m <=? 407710303) eqn:E3;
+    cbn [andb]; try reflexivity; exfalso;
+    repeat match goal with
+           | H : (_ =? _) = true |- _ => apply Z.eqb_eq in H
+           | H : (_ =? _) = false |- _ => apply Z.eqb_neq in H
+           | H : (_ <=? _) = true |- _ => apply Z.leb_le in H
+           | H : (_ <=? _) = false |- _ => apply Z.leb_gt in H
+           end; lia.
+Qed.
+
+(* ---------------------------------------------------------------- little-endian words of in-range bytes *)
+Lemma le_val_range : forall bs, bytes_ok bs = true -> 0 <= le_val bs < 256 ^ Z.of_nat (length bs).
+Proof.
+  induction bs as [|b r IH]; intros H.
+  - cbn. lia.
+  - rewrite bytes_ok_cons in H. apply andb_true_iff in H. destruct H as [Hb Hr].
+    unfold byte_ok in Hb. apply andb_true_iff in Hb. destruct Hb as [Hb1 Hb2].
+    apply Z.leb_le in Hb1. apply Z.ltb_lt in Hb2.
+    specialize (IH Hr). cbn [le_val length]. rewrite Nat2Z.inj_succ, Z.pow_succ_r by lia. lia.
+Qed.
+
+Lemma le_val_4_range : forall bs, bytes_ok bs = true -> length bs = 4%nat -> 0 <= le_val bs < 4294967296.
+Proof. intros bs H L. apply le_val_range in H. rewrite L in H. exact H. Qed.
+
+Lemma bytes_ok_firstn : forall n l, bytes_ok l = true -> bytes_ok (firstn n l) = true.
+Proof.
+  intros n l H. rewrite <- (firstn_skipn n l) in H. rewrite bytes_ok_app in H.
+  apply andb_true_iff in H. tauto.
+Qed.
+Lemma bytes_ok_skipn : forall n l, bytes_ok l = true -> bytes_ok (skipn n l) = true.
+Proof.
+  intros n l H. rewrite <- (firstn_skipn n l) in H. rewrite bytes_ok_app in H.
+  apply andb_true_iff in H. tauto.
+Qed.
+
+(* every frame magic number exceeds the largest legacy block size the decoder accepts *)
+Lemma magic_gap : forall w, is_magic w = true -> LZ4IO_LEGACY_BOUND < w.
+Proof.
+  intros w H. unfold is_magic, MAGIC, MAGIC_LEGACY, MAGIC_SKIP_LO, MAGIC_SKIP_HI in H. unfold LZ4IO_LEGACY_BOUND.
+  apply orb_true_iff in H. destruct H as [H|H].
+  - apply orb_true_iff in H. destruct H as [H|H]; apply Z.eqb_eq in H; lia.
+  - apply andb_true_iff in H. destruct H as [H _]. apply Z.leb_le in H. lia.
+Qed.
+
+Section Streams.
+  Variable bdec : list byte -> list byte -> option (list byte).
+  Variable skipcrc : bool.
+
+  Lemma legacy_blocks_mono : forall f f' acc bs r,
+    legacy_blocks bdec f acc bs = Some r -> (f <= f')%nat -> legacy_blocks bdec f' acc bs = Some r.
+  Proof.
+    induction f; intros f' acc bs r H LE; cbn [legacy_blocks] in H; [discriminate|].
+    destruct f' as [|f']; [lia|]. cbn [legacy_blocks].
+    destruct bs as [|b0 bs0]; [exact H|].
+    destruct (take 4 (b0 :: bs0)) as [[szb r0]|]; [|discriminate].
+    destruct (is_magic (le_val szb)); [exact H|].
+    destruct (take _ r0) as [[data r1]|]; [|discriminate].
+    destruct (bdec [] data) as [c|]; [|discriminate].
+    destruct (LEGACY_BLOCK <? _); [discriminate|].
+    apply IHf; [exact H|lia].
+  Qed.
+
+  Lemma stream_decode_mono : forall f f' dict acc bs r,
+    stream_decode bdec skipcrc f dict acc bs = Some r -> (f <= f')%nat ->
+    stream_decode bdec skipcrc f' dict acc bs = Some r.
+  Proof.
+    induction f; intros f' dict acc bs r H LE; cbn [stream_decode] in H; [discriminate|].
+    destruct f' as [|f']; [lia|]. cbn [stream_decode].
+    destruct bs as [|b0 bs0]; [exact H|].
+    destruct (take 4 (b0 :: bs0)) as [[mg r0]|]; [|discriminate].
+    destruct (le_val mg =? MAGIC).
+    - destruct (frame_decode bdec skipcrc dict (b0 :: bs0)) as [[c rest]|]; [|discriminate].
+      apply IHf; [exact H|lia].
+    - destruct (le_val mg =? MAGIC_LEGACY).
+      + destruct (legacy_blocks bdec (S (length r0)) [] r0) as [[c rest]|]; [|discriminate].
+        apply IHf; [exact H|lia].
+      + destruct ((MAGIC_SKIP_LO <=? le_val mg) && (le_val mg <=? MAGIC_SKIP_HI)); [|discriminate].
+        destruct (take 4 r0) as [[szb r1]|]; [|discriminate].
+        destruct (take _ r1) as [[pl rest]|]; [|discriminate].
+        apply IHf; [exact H|lia].
+  Qed.
+End Streams.
